@@ -199,6 +199,14 @@ def judge(case):
     _run_prog(M.program("e", M.if_([(M.cmp_(x, "not in", M.tup([lit])), R_NE)], R_EQ)), envs, viol, "one-element tuple member")
     tenvs = [{"x": (n, ov)} for n in nb] + [{"x": [v, ov]}, {"x": (v,)}]
     _run_prog(M.program("e", M.if_([(M.cmp_(x, "==", M.tup([lit, other])), R_EQ)], R_NE)), tenvs, viol, "member of a compared tuple")
+    # tuples of 3 and 4 members: the ORDER of the members matters for == and for nested membership
+    t3 = M.tup([other, lit, M.lit_int("7")])
+    t4 = M.tup([lit, M.lit_int("1"), other, M.lit_str("z")])
+    _run_prog(M.program("e", M.if_([(M.cmp_(x, "==", t3), R_EQ)], R_NE)),
+              [{"x": (ov, v, 7)}, {"x": (ov, 7, v)}, {"x": (7, v, ov)}, {"x": (v, ov, 7)}], viol, "member of a compared 3-tuple")
+    _run_prog(M.program("e", M.if_([(M.cmp_(x, "in", M.tup([t4, t3])), R_EQ)], R_NE)),
+              [{"x": (v, 1, ov, "z")}, {"x": (v, "z", ov, 1)}, {"x": (ov, v, 7)}, {"x": (ov, 7, v)}, {"x": ("z", ov, 1, v)}], viol,
+              "member of nested 3- and 4-tuples")
     nenvs = [{"x": (n,)} for n in nb] + [{"x": v}]
     _run_prog(M.program("e", M.if_([(M.cmp_(x, "in", M.tup([M.tup([lit]), M.tup([other, lit])])), R_EQ)], R_NE)), nenvs + [{"x": (ov, v)}], viol,
               "member of a nested tuple")
